@@ -11,7 +11,8 @@ ORACLE = {"05": sc.oracle_C05, "06": sc.oracle_C06_full, "07": sc.oracle_C07}["0
 def run(ck):
     sc.run_property(ck, ORACLE, MODES)
     ck.run_fixed({"factory_error_fails_the_component": "C07:error-lost",
-                  "timeout_is_a_timeouterror_wherever_the_component_hangs": "C07:timeout-not-a-timeouterror"})
+                  "timeout_is_a_timeouterror_wherever_the_component_hangs": "C07:timeout-not-a-timeouterror",
+                  "nested_start_component_keeps_its_own_timeout": "C07:timeout-ignored"})
 
 
 def replay(ck, obj):
